@@ -534,6 +534,15 @@ type ssWorld[E elemType] struct {
 	set     reactive.SortedSet[E]
 	mu      sync.Mutex
 	weights map[E]reactive.Variable[int]
+	mk      func(E) reactive.Variable[int] // how a weight variable is created (nil: a plain variable)
+}
+
+// newSSWorldWith: a SortedSet whose weight variables are made by mk (e.g. DerivedVariables of other inputs).
+func newSSWorldWith[E elemType](less bool, mk func(E) reactive.Variable[int]) *ssWorld[E] {
+	w := &ssWorld[E]{less: less, weights: map[E]reactive.Variable[int]{}, mk: mk}
+	w.set = reactive.NewSortedSet[E, int](w.weight)
+
+	return w
 }
 
 func newSSWorld[E elemType](less bool) *ssWorld[E] {
@@ -550,6 +559,9 @@ func (w *ssWorld[E]) weight(e E) reactive.Variable[int] {
 		return v
 	}
 	v := reactive.NewVariable[int]()
+	if w.mk != nil {
+		v = w.mk(e)
+	}
 	w.weights[e] = v
 
 	return v
